@@ -349,6 +349,74 @@ def mutating_callable_case(_=None):
   return n, n, viols, [dict(scenario='callable mutating its container arguments, then raising', cases=n)]
 
 
+class _Cached:
+  """A callable that remembers the exception it was told about and raises it again."""
+  stash = {}
+
+  @staticmethod
+  def fail(x=0):
+    raise KeyError('first failure')
+
+  @staticmethod
+  def again(x=0):
+    raise _Cached.stash['exc']
+
+
+def redecorated_case(_=None):
+  """An exception that already went through Fiddle's decoration once (it escaped an earlier failed
+  fdl.build, or a failed pyref import) and is raised again by another callable: the build that fails
+  now reports the path of the Buildable that failed now, with the original class and message."""
+  from layerb import pool as _pool
+  viols = []
+  def bad(what, name):
+    viols.append(dict(what=what, shape=[], sig='redecorated', store=name, op='', scenario=name))
+  first = fdl.Config(_pool.fk, inner=[0, {'x': fdl.Config(_Cached.fail, 1)}])
+  try:
+    fdl.build(first)
+    return 1, 0, [], []
+  except KeyError as e:
+    _Cached.stash['exc'] = e
+    first_msg = str(e)
+  if "inner[1]['x']" not in first_msg:
+    bad(f'the first failure does not name its path: {first_msg[:120]}', 'first')
+  n = 0
+  for name, mk, want in [
+      ('re-raised at another path', lambda: fdl.Config(_pool.fk, other=(fdl.Config(_Cached.again, 2),)), '.other[0]'),
+      ('re-raised at the root', lambda: fdl.Config(_Cached.again, 2), '<root>'),
+      ('re-raised inside a Partial argument', lambda: fdl.Partial(_pool.fk, z=fdl.Config(_Cached.again)), '.z'),
+  ]:
+    n += 1
+    try:
+      fdl.build(mk())
+      bad('the build did not fail', name)
+    except KeyError as e:
+      msg = str(e)
+      if 'first failure' not in msg:
+        bad(f'the original message is lost: {msg[:120]}', name)
+      tail = msg.split("inner[1]['x']")[-1] if want == '<root>' else msg
+      if want not in tail:
+        bad(f'an exception decorated once before is re-raised by the Buildable at {want}; the message of the '
+            f'failing build does not name that path: {msg[:200]}', name)
+    except Exception as e:   # pylint: disable=broad-except
+      bad(f'the exception class changed to {type(e).__name__}', name)
+  # a pyref that cannot be imported, hit while a build is running
+  from fiddle._src.experimental import serialization as ser
+  def loader(doc=None):
+    return ser.load_json(doc)
+  good = ser.dump_json(fdl.Config(_pool.fk, 1))
+  broken = good.replace('layerb.pool', 'layerb.no_such_module_for_c05')
+  if broken != good:
+    n += 1
+    try:
+      fdl.build(fdl.Config(_pool.fk, sub={'k': fdl.Config(loader, broken)}))
+      bad('the build did not fail', 'pyref')
+    except Exception as e:   # pylint: disable=broad-except
+      if ".sub['k']" not in str(e):
+        bad(f'a failed pyref import inside a callable being built: the message does not name the failing '
+            f'Buildable .sub[\'k\']: {str(e)[:200]}', 'pyref')
+  return n, n, viols, [dict(scenario='exception decorated before, raised again', cases=n)]
+
+
 def replay(case):
   if case.get('scenario') == 'mutating':
     r = mutating_callable_case()
@@ -360,6 +428,10 @@ def replay(case):
     r = diagnostic_failure_case()
   elif case.get('scenario') == 'nested':
     r = nested_build_case()
+  elif case.get('sig') == 'redecorated':
+    r = redecorated_case()
+    m = [v for v in r[2] if v['store'] == case.get('store')]
+    return m[0]['what'] if m else None
   else:
     shape = tuple((k, tuple(s)) for k, s in case['shape'])
     r = check_case((shape, case['fail_node'], case['exc'], case['bad_repr']))
@@ -382,6 +454,7 @@ def run(tier='quick', seed=0, nproc=16):
   res.append(common.guard(diagnostic_failure_case))
   res.append(common.guard(same_named_classes_case))
   res.append(common.guard(mutating_callable_case))
+  res.append(common.guard(redecorated_case))
   return common.merge(
       res, 'layerb.prop_C05',
       rule='crash points: every Buildable node of every DAG shape (<= %d nodes, Config/list/dict) as '
